@@ -329,8 +329,33 @@ def stop_from_inside(fam):
     return out
 
 
+def reopened_id_then_end(fam):
+    """a peer behind relays may count its streams from 1 again inside one Serve (a client that re-attached to a proxy in front
+    of a demultiplexer): it resets stream 1, whose handler is still winding down, and opens stream 1 again; when the
+    connection ends, Serve returns only after EVERY handler it started has returned"""
+    out = []
+    for how in ('sread', 'stop'):
+        for again in ('open', 'open+body'):
+            b = B(fam, 'id opened again while its reset handler is still running (%s), then end by %s' % (again, how), rawcli=True, ser=True)
+            b.step('hops', c=301, hp=[dict(o='ctxwait')])          # told, then idle until the script lets it return
+            b.step('inj', dir='c2s', env=env(1, m=METH['bidi'], src='cliX', dst='srv', c=301))
+            b.step('inj', dir='c2s', env=env(1, m=METH['bidi'], b='m', src='cliX', dst='srv'))
+            b.step('inj', dir='c2s', env=env(1, m=METH['bidi'], r='RST_STREAM', src='cliX', dst='srv'))
+            b.q()
+            b.step('hops', c=302, hp=[dict(o='ctxwait'), ret(code=1, msg='second')])
+            b.step('inj', dir='c2s', env=env(1, m=METH['bidi'], src='cliX', dst='srv', c=302))
+            if again != 'open':
+                b.step('inj', dir='c2s', env=env(1, m=METH['bidi'], b='n', src='cliX', dst='srv'))
+            b.q()
+            b.step('fault', what=how)
+            b.q()
+            b.step('hop', c=301, h=ret(code=1, msg='first, late'))
+            out.append(b.q().done())
+    return out
+
+
 def c10(tier, rng, fam='C10'):
-    out = end_while_reader_holds_envelope(fam) + stop_from_inside(fam)
+    out = end_while_reader_holds_envelope(fam) + stop_from_inside(fam) + reopened_id_then_end(fam)
     # (more unary calls than the 8 workers: the surplus waits in the read loop's hand-off)
     combos = [(0, 0), (1, 0), (0, 1), (2, 2), (10, 0), (9, 1)] if tier == 'quick' else \
         [(u, s) for u in (0, 1, 3, 8, 9, 12) for s in (0, 1, 3, 8)]
